@@ -5,7 +5,7 @@ import re
 import itertools
 from .. import model, sweep, codecs, cli
 from ..runner import Result, scratch
-from ..bridge import T, build, quiet
+from ..bridge import T, build, quiet, build_via_export
 
 from trees import treeanalysis, treeoutput, grammar, grammaranalysis
 
@@ -45,7 +45,8 @@ def plan(tier, seed):
         'bound': ', '.join('n=%d:u<=%d' % s for s in specs) + '; treebanks of <= %d trees' % k,
         'exhaustive': True,
         'assumptions': ['export encoder of the harness is correct (selftest)',
-                        'each tree is analysed again after root_attach and after deleting its first token (same objects)'],
+                        'each tree is analysed again after root_attach and after deleting its first token (same objects)',
+                        'trees come from the tree API (child lists in order / reversed) or from the real export reader; labels unique or all equal'],
     }
 
 
@@ -58,8 +59,10 @@ def check_tree(mtj, order=None):
         out.append({'kind': 'gap-mismatch', 'where': where, 'case': case,
                     'detail': '%s: expected %r, got %r on %s' % (where, exp, got, model.mt_str(mt.root)),
                     'what': where + ' disagrees with the set-based definition'})
+    def mk():
+        return build_via_export(mt, scratch()) if order == 'export' else build(mt, child_order=order)
     try:
-        t = build(mt, child_order=order)
+        t = mk()
         degs = []
         stack = [(t, mt.root)]
         while stack:
@@ -114,7 +117,7 @@ def check_tree(mtj, order=None):
         # degrees must follow the tree, not remember earlier answers
         from trees import transform
         from ..bridge import extract, monitor as _monitor, all_nodes
-        live = build(mt, child_order=order)
+        live = mk()
         for x in all_nodes(live):
             treeanalysis.gap_degree_node(x)
         treeanalysis.gap_degree(live)
@@ -279,8 +282,9 @@ def run_chunk(chunk):
             res.sample({'treebank': [model.mt_str(P[i].root) for i in seq], 'tasks': ['GapDegree', 'SentenceCount', 'PosTags']})
             return res
         for sh, k in sweep.iter_shapes(chunk):
-            mt = model.simple_mt(sh)
-            vs = check_tree(mt.to_json(), None if res.evals % 2 else 'rev')
+            # labels: unique per node, or all the same (so that one bare rule occurs continuous and discontinuous)
+            mt = model.simple_mt(sh) if res.evals % 3 else model.simple_mt(sh, labels='A', pos=['x'] * len(model.leaves(sh)))
+            vs = check_tree(mt.to_json(), [None, 'rev', 'export'][res.evals % 3 if res.evals % 2 else (res.evals // 2) % 3])
             res.evals += 1
             d = model.mt_tree_gap_degree(mt.root)
             if d > 0:
